@@ -120,6 +120,8 @@ class PyPoints:
         points = self
 
         def counted(self, *a, **kw):  # noqa: ANN001, ANN002, ANN003, ANN202
+            if self._file_path.startswith(":"):
+                return orig(self, *a, **kw)     # the foreign party's in-memory database is not under test
             points.n += 1
             n = points.n
             if not points.kill_at:
@@ -162,6 +164,8 @@ def install_ack_wrappers(log: AckLog) -> None:
         orig = getattr(cls, name)
 
         def acked(self, *a, **kw):  # noqa: ANN001, ANN002, ANN003, ANN202
+            if self._file_path.startswith(":"):
+                return orig(self, *a, **kw)     # the foreign party's in-memory database is not under test
             table, row = describe(self, *a, **kw)
             log.ev(e="B", t=table, row=[hx(c) for c in row])
             r = orig(self, *a, **kw)
